@@ -5,7 +5,6 @@ package codeccheck
 
 import (
 	"bytes"
-	"time"
 	"encoding/json"
 	"flag"
 	"fmt"
@@ -13,6 +12,7 @@ import (
 	"sort"
 	"strings"
 	"sync"
+	"time"
 	_ "unsafe"
 
 	"github.com/200sc/bebop"
@@ -64,14 +64,18 @@ type Result struct {
 }
 
 type W struct {
-	mu       sync.Mutex
-	res      *Result
-	seen     map[string]*Finding
-	distinct map[string]struct{}
-	thorough bool
-	progress *os.File
-	skip     map[string]bool
-	boundStart time.Time
+	mu          sync.Mutex
+	res         *Result
+	seen        map[string]*Finding
+	distinct    map[string]struct{}
+	thorough    bool
+	progress    *os.File
+	skip        map[string]bool
+	resumeAfter string
+	abortBound  bool
+	phase       string // sub-phase of a case (e.g. which decoder), part of the progress marker
+	si, sn      int
+	boundStart  time.Time
 }
 
 func (w *W) report(sig, msg string, c map[string]any) {
@@ -96,19 +100,50 @@ func (w *W) report(sig, msg string, c map[string]any) {
 // begin marks the start of work on one bound case (progress marker for crash attribution) and
 // reports whether the case is on the skip list of a restarted worker.
 func (w *W) begin(b *driver.Bound) bool {
-	m := fmt.Sprintf("%s@%d|%s", b.Case.ID, b.Opt, b.Case.Class)
-	if w.skip[fmt.Sprintf("%s@%d", b.Case.ID, b.Opt)] {
+	key := fmt.Sprintf("%s@%d", b.Case.ID, b.Opt)
+	m := fmt.Sprintf("%s|%s", key, b.Case.Class)
+	if w.phase != "" {
+		key += "#" + w.phase
+		m = fmt.Sprintf("%s|%s|%s", key, w.phase, b.Case.Class)
+	}
+	if w.resumeAfter != "" {
+		// a restarted worker: everything up to and including the case that killed its predecessor was already handled
+		if key == w.resumeAfter {
+			w.resumeAfter = ""
+		}
 		return false
+	}
+	if w.skip[key] {
+		return false
+	}
+	// counters so far, so that a fatal crash does not lose them
+	w.res.Distinct = int64(len(w.distinct))
+	if pb, err := json.Marshal(map[string]any{"partial": w.res}); err == nil {
+		os.Stdout.Write(append(pb, '\n'))
 	}
 	w.start(m)
 	w.boundStart = time.Now()
+	w.abortBound = false
 	return true
+}
+
+// slowCall is told how long one guarded call took; a call that needs more than 300 ms (a decode normally
+// takes microseconds) ends the work on the current case: what it found so far is kept and reported.
+func (w *W) slowCall(b *driver.Bound, d time.Duration) {
+	if d > 300*time.Millisecond && !w.abortBound {
+		w.abortBound = true
+		w.res.Capped = "a single call on case " + b.Case.Class + " took " + d.String() + " (pathological allocation); the remaining inputs of that case were skipped"
+	}
 }
 
 // slow reports whether the current bound case has used up its wall budget (normally a case takes
 // milliseconds); the rest of its values are skipped and the run is marked as capped.
 func (w *W) slow(b *driver.Bound) bool {
-	if time.Since(w.boundStart) > 20*time.Second {
+	if w.abortBound {
+		return true
+	}
+	if time.Since(w.boundStart) > 10*time.Second {
+		w.abortBound = true
 		w.res.Capped = "case " + b.Case.Class + " exceeded its 20 s wall budget (pathologically slow calls); its remaining values were skipped"
 		return true
 	}
@@ -156,6 +191,7 @@ func Main(pkgs []Pkg) {
 	onlyOpt := flag.Int("opt", -1, "restrict to one option set (replay)")
 	progress := flag.String("progress", "", "progress marker file")
 	skipList := flag.String("skip", "", "comma-separated case@opt markers to skip (cases that killed an earlier worker)")
+	resume := flag.String("resume-after", "", "skip every case up to and including this case@opt marker (restart after a fatal crash)")
 	flag.Parse()
 	var si, sn int
 	fmt.Sscanf(*shard, "%d/%d", &si, &sn)
@@ -164,6 +200,7 @@ func Main(pkgs []Pkg) {
 	}
 	w := &W{res: &Result{Property: *prop, Shard: *shard, Extra: map[string]int{}, Outcomes: map[string]int{}}, seen: map[string]*Finding{}, distinct: map[string]struct{}{}, thorough: *tier == "thorough"}
 	w.skip = map[string]bool{}
+	w.resumeAfter = *resume
 	for _, m := range strings.Split(*skipList, ",") {
 		if m != "" {
 			w.skip[m] = true
@@ -176,6 +213,8 @@ func Main(pkgs []Pkg) {
 		}
 	}
 	driver.SingleThreaded()
+	// map iteration is deterministic throughout (insertion order, rotation 0) unless a check rotates it
+	SetMapRotation(0)
 	sup := schema.NewSupport()
 	cases := sup.Cases(w.thorough)
 	cases = append(cases, EvoCases(sup)...)
@@ -253,7 +292,9 @@ func Main(pkgs []Pkg) {
 	case "C03":
 		w.c03(mine)
 	case "C04":
-		w.c04(mine, byID)
+		// old and new twins must be bound in the same worker: every shard sees all evolution groups
+		w.si, w.sn = si, sn
+		w.c04(groups, byID)
 	case "C05":
 		w.c05(mine)
 	case "C06":
@@ -338,10 +379,10 @@ func hasMultiMap(rv *refcodec.RecValue) bool {
 
 // encodeAll runs the three encoders; each is guarded.
 type encs struct {
-	size                   int
-	marshal, to, stream    []byte
-	toN                    int
-	oM, oT, oS, oSize      driver.Outcome
+	size                int
+	marshal, to, stream []byte
+	toN                 int
+	oM, oT, oS, oSize   driver.Outcome
 }
 
 func encodeAll(rec bebop.Record) encs {
